@@ -285,7 +285,18 @@ def r3b_increment(ctx):
     ctx.ob(rule, name, 'pushes the current clock + 1', ok, found=found, expected='push(*last + 1)')
 
 
+def r5_verdict_is_current(ctx):
+    """the move-count draw is a function of the CURRENT clock: game_ending must read it on every call - a verdict remembered per position
+    (a memo keyed by the position key, which does not contain the clock) reports the draw late, early or never.  Necessary condition
+    checked: the move generator game_ending is handed keeps no mutable state beyond its keyed move / attack caches (= C02.R4)."""
+    from . import c02
+    import_rules(ctx, 'C16.R5-verdict-not-remembered', [c02.r4_unkeyed_state],
+                 'a draw verdict stored in the generator (or anywhere else) under the position key ignores the half-move clock the rule is about',
+                 floor=3)
+
+
 def run(ctx):
+    r5_verdict_is_current(ctx)
     r3b_increment(ctx)
     r1_reset_table(ctx)
     r2_threshold(ctx)
